@@ -90,14 +90,18 @@ def handle (inp out : List String) : String :=
     match parseBools bits with
     | some bs =>
       let m := bs.map (fun b => hex (bpskMod F b))
-      verdict [if m.isEmpty then "-" else ",".intercalate m] out none
+      let ms := [if m.isEmpty then "-" else ",".intercalate m]
+      -- the BPSK map is exact (+-1): a different symbol sequence is a failure of the modulator clause itself, with this input
+      verdict ms out (if out ≠ ms ∧ out ≠ ["panic"] then some "bpsk-symbols-are-not-the-points-of-the-bits-in-order" else none)
     | none => "BADLINE c14 modb"
   | ["mod8", bits] =>
     match parseBools bits with
     | some bs =>
       let m := match psk8ModAll F bs with | some l => [showPts l] | none => ["panic"]
       -- predicate: unit energy of every emitted point (to 1e-15)
-      verdict m out none
+      -- the points are fixed constants (DVB-S2 Gray map, C14.psk8_gray / psk8_unit_energy): for a bit count divisible by 3 a different
+      -- symbol sequence is a failure of the modulator clause itself, with this input
+      verdict m out (if bs.length % 3 = 0 ∧ out ≠ m ∧ out ≠ ["panic"] then some "8psk-symbols-are-not-the-gray-mapped-points-of-the-bit-triples-in-order" else none)
     | none => "BADLINE c14 mod8"
   | ["demb", s, r] =>
     match parseF s, parseF r, out with
